@@ -402,8 +402,10 @@ def main(argv: list[str]) -> int:
         "wall_s": round(time.time() - t0, 2),
         "violations": 1 if violation else 0,
     }
-    (VERIF / "evidence").mkdir(exist_ok=True)
-    (VERIF / "evidence" / f"{pid}.json").write_text(json.dumps(ev, indent=1, ensure_ascii=False))
+    # a run against an alternate tree (VERIF_REPO: seeded-change tests) must not overwrite the evidence of /repo
+    evdir = VERIF / "replays" / "alt_repo_evidence" if os.environ.get("VERIF_REPO") else VERIF / "evidence"
+    evdir.mkdir(parents=True, exist_ok=True)
+    (evdir / f"{pid}.json").write_text(json.dumps(ev, indent=1, ensure_ascii=False))
 
     for line in out_lines:
         print(line)
